@@ -3,6 +3,9 @@ package checks
 import (
 	"errors"
 	"fmt"
+	"io"
+	"net/http"
+	"net/url"
 	"sort"
 	"strings"
 	"time"
@@ -32,6 +35,7 @@ type dirFill struct {
 	Outcome    string // ok | error | notfound
 	Members    []string
 	Thread     int
+	Prefill    bool // ran before the threads started
 }
 
 type directory struct {
@@ -45,6 +49,131 @@ type directory struct {
 	reported map[string]map[bool]bool
 	checks   []*dirCheck
 	failable bool
+	updates  []*dirUpdate               // refreshes run by harness threads (their fills are certainly installed once they return)
+	snapshot func() map[string][]string // the fill cache's content, read after the run
+}
+
+type dirUpdate struct {
+	Group      string
+	Thread     int
+	Start, End int
+}
+
+func fc0(d *directory) map[string][]string {
+	if d.snapshot == nil {
+		return nil
+	}
+	return d.snapshot()
+}
+
+// finalCacheProblems: what the cache holds for each group at the end must follow from the directory's
+// answers to the fills, in order: a successful fill replaces the list, a failed one keeps it, "missing"
+// drops the group. A fill whose refresh was run by a harness thread that returned is certainly applied;
+// a fill run by a background loop may or may not have been applied yet.
+func finalCacheProblems(d *directory, final map[string][]string) (probs []c17Problem) {
+	byGroup := map[string][]*dirFill{}
+	for _, f := range d.fills {
+		if f.End != 0 {
+			byGroup[f.Group] = append(byGroup[f.Group], f)
+		}
+	}
+	for g, fl := range byGroup {
+		sort.Slice(fl, func(i, j int) bool { return fl[i].Start < fl[j].Start })
+		states := map[string]bool{"(absent)": true}
+		for _, f := range fl {
+			certain := false
+			for _, u := range d.updates {
+				if u.Group == g && u.Thread == f.Thread && u.Start < f.Start && u.End != 0 && f.End < u.End {
+					certain = true
+				}
+			}
+			if f.Prefill {
+				certain = true
+			}
+			next := map[string]bool{}
+			for st := range states {
+				after := st
+				switch f.Outcome {
+				case "ok":
+					after = "[" + strings.Join(sortedCopy(f.Members), ",") + "]"
+				case "notfound":
+					after = "(absent)"
+				}
+				next[after] = true
+				if !certain {
+					next[st] = true
+				}
+			}
+			states = next
+		}
+		got := "(absent)"
+		if l, ok := final[g]; ok {
+			got = "[" + strings.Join(sortedCopy(l), ",") + "]"
+		}
+		if !states[got] {
+			var want []string
+			for st := range states {
+				want = append(want, st)
+			}
+			sort.Strings(want)
+			last := fl[len(fl)-1]
+			probs = append(probs, c17Problem{"cache-does-not-follow-fills/last-" + last.Outcome, fmt.Sprintf("group %s: the cache ends with %s; the directory's answers to its %d fills (last: %s) allow %v", g, got, len(fl), last.Outcome, want)})
+		}
+	}
+	return probs
+}
+
+// dirTransport serves the two Admin SDK calls GoogleAdminService makes from the scripted directory,
+// in memory: GET .../groups/{g}/members and GET .../groups/{g}/hasMember/{user}.
+type dirTransport struct{ d *directory }
+
+func (t dirTransport) RoundTrip(r *http.Request) (*http.Response, error) {
+	respond := func(code int, body string) (*http.Response, error) {
+		return &http.Response{StatusCode: code, Status: fmt.Sprintf("%d %s", code, http.StatusText(code)), Proto: "HTTP/1.1", ProtoMajor: 1, ProtoMinor: 1,
+			Header: http.Header{"Content-Type": {"application/json"}}, Body: io.NopCloser(strings.NewReader(body)), ContentLength: int64(len(body)), Request: r}, nil
+	}
+	fail := func(code int) (*http.Response, error) {
+		return respond(code, fmt.Sprintf(`{"error":{"code":%d,"message":"scripted %d","errors":[{"reason":"scripted"}]}}`, code, code))
+	}
+	parts := strings.Split(strings.Trim(r.URL.Path, "/"), "/")
+	gi := -1
+	for i, p := range parts {
+		if p == "groups" {
+			gi = i
+		}
+	}
+	if gi < 0 || gi+2 >= len(parts) {
+		return fail(400)
+	}
+	group, _ := url.PathUnescape(parts[gi+1])
+	switch parts[gi+2] {
+	case "members":
+		f, members, err := t.d.listRec(group)
+		switch {
+		case err == groups.ErrGroupNotFound:
+			return fail(404)
+		case err != nil:
+			code := []int{500, 503, 429, 400}[t.d.x.Choose("list-error-status", 4)]
+			f.Outcome = "error"
+			return fail(code)
+		}
+		var ms []string
+		for _, m := range members {
+			ms = append(ms, fmt.Sprintf(`{"email":%q,"type":"USER"}`, m))
+		}
+		return respond(200, `{"kind":"admin#directory#members","members":[`+strings.Join(ms, ",")+`]}`)
+	case "hasMember":
+		if gi+3 >= len(parts) {
+			return fail(400)
+		}
+		user, _ := url.PathUnescape(parts[gi+3])
+		ans, err := t.d.check([]string{group}, user)
+		if err != nil {
+			return fail(503)
+		}
+		return respond(200, fmt.Sprintf(`{"isMember":%v}`, len(ans) > 0))
+	}
+	return fail(404)
 }
 
 type dirCheck struct {
@@ -362,8 +491,9 @@ func fillOracle(d *directory, obs []*fillObs, s *sched.Sched, probs []c17Problem
 // ---- local/* --------------------------------------------------------------------------------
 
 type localQ struct {
-	User   string
-	Groups []string
+	User    string
+	Groups  []string
+	Refresh bool // not a question: one refresh of Groups[0] run by this thread (what a refresh-loop tick does)
 }
 
 type localScenario struct {
@@ -459,12 +589,13 @@ func localOracle(d *directory, obs []*localObs, s *sched.Sched) (probs []c17Prob
 // ---- google/* -------------------------------------------------------------------------------
 
 type googleScenario struct {
-	Cognito bool // drive AmazonCognitoProvider instead of GoogleProvider
-	Name    string
-	Prefill []string // groups filled (and loops started) before the threads run
-	Threads [][]localQ
-	Ticks   int
-	Bound   int
+	Cognito   bool // drive AmazonCognitoProvider instead of GoogleProvider
+	RealAdmin bool // the real GoogleAdminService over an in-memory HTTP transport onto the scripted directory
+	Name      string
+	Prefill   []string // groups filled (and loops started) before the threads run
+	Threads   [][]localQ
+	Ticks     int
+	Bound     int
 }
 
 func googleExecute(x *explore.Exec, sc googleScenario) (*directory, []*localObs, *sched.Sched, []c17Problem) {
@@ -500,6 +631,11 @@ func googleExecute(x *explore.Exec, sc googleScenario) (*directory, []*localObs,
 				panic(explore.HarnessError{Msg: err.Error()})
 			}
 			gp.AdminService = adminFake{d}
+			if sc.RealAdmin {
+				if err := authp.VerifUseRealAdminService(gp, &http.Client{Transport: dirTransport{d}}); err != nil {
+					panic(explore.HarnessError{Msg: err.Error()})
+				}
+			}
 			fc = groups.NewFillCache(gp.PopulateMembers, time.Minute)
 			gp.GroupsCache = fc
 			ask = func(user string, gs []string) ([]string, error) { return gp.ValidateGroupMembership(user, gs, "tok") }
@@ -508,11 +644,22 @@ func googleExecute(x *explore.Exec, sc googleScenario) (*directory, []*localObs,
 		for _, g := range sc.Prefill {
 			fc.Update(g)
 		}
+		for _, f := range d.fills {
+			f.Prefill = true
+		}
+		d.snapshot = func() map[string][]string { return fc.VerifSnapshot().Cache }
 		d.failable = true
 		for t, qs := range sc.Threads {
 			t, qs := t, qs
 			s.Go(fmt.Sprintf("t%d", t), func() {
 				for _, q := range qs {
+					if q.Refresh {
+						u := &dirUpdate{Group: q.Groups[0], Thread: d.s.Cur().ID, Start: d.tick()}
+						d.updates = append(d.updates, u)
+						fc.Update(q.Groups[0])
+						u.End = d.tick()
+						continue
+					}
 					if q.User == "" {
 						s.Point("edit")
 						d.change(q.Groups[0])
@@ -533,10 +680,16 @@ func googleExecute(x *explore.Exec, sc googleScenario) (*directory, []*localObs,
 			})
 		}
 	})
+	if sc.RealAdmin && s.Panic == nil && !s.Deadlock {
+		probs = append(probs, finalCacheProblems(d, fc0(d))...)
+	}
 	return d, obs, s, probs
 }
 
-type c17Flags struct{ cognito bool }
+type c17Flags struct {
+	cognito   bool
+	realAdmin bool
+}
 
 func googleOracle(d *directory, obs []*localObs, s *sched.Sched, probs []c17Problem, sc c17Flags) []c17Problem {
 	if s.Panic != nil {
@@ -569,6 +722,9 @@ func googleOracle(d *directory, obs []*localObs, s *sched.Sched, probs []c17Prob
 		}
 		// a question that touched the directory directly must return exactly that direct answer
 		for _, c := range d.checks {
+			if sc.realAdmin {
+				break // the real admin service asks the directory one group at a time
+			}
 			if c.Thread == o.Thread+1 && o.Start < c.Start && c.End != 0 && c.End < o.End && !c.Err {
 				if !sc.cognito && strings.Join(sortedCopy(c.Groups), ",") != strings.Join(sortedCopy(o.Q.Groups), ",") {
 					probs = append(probs, c17Problem{"fallback-asked-about-other-groups", fmt.Sprintf("question (%s,%v) fell back to the directory but asked it about %v", o.Q.User, o.Q.Groups, c.Groups)})
@@ -602,7 +758,14 @@ func c17Run(c *fw.Ctx) {
 	locals := []localScenario{
 		{Name: "local/orders-and-users", Threads: [][]localQ{{q("u1", "a", "b"), q("u1", "b", "a")}, {q("u2", "a", "b")}, {edit("a"), q("u1", "a")}}, Expiry: 1, Bound: b},
 	}
+	upd := func(g string) localQ { return localQ{Groups: []string{g}, Refresh: true} }
+	ba := 1
+	if c.Thorough() {
+		ba = 2
+	}
 	googles := []googleScenario{
+		{Name: "google-admin/refresh-outcomes", RealAdmin: true, Prefill: []string{"a"}, Threads: [][]localQ{{upd("a"), q("u1", "a")}, {edit("a"), upd("a"), q("u2", "a")}}, Ticks: 0, Bound: ba},
+		{Name: "google-admin/uncached-and-refresh", RealAdmin: true, Prefill: []string{"a"}, Threads: [][]localQ{{q("u1", "a", "b")}, {upd("a")}}, Ticks: 0, Bound: ba},
 		{Name: "google/cached-and-uncached", Prefill: []string{"a"}, Threads: [][]localQ{{q("u1", "a", "b")}, {q("u2", "b", "a")}, {edit("a"), q("u1", "a")}}, Ticks: 1, Bound: b},
 		{Name: "google/all-uncached", Threads: [][]localQ{{q("u1", "a")}, {q("u1", "a")}, {edit("a")}}, Ticks: 1, Bound: b},
 		{Name: "google/three-groups-partly-cached", Prefill: []string{"a", "b"}, Threads: [][]localQ{{q("u2", "a", "b", "c")}, {edit("b"), q("u1", "b", "a", "c")}}, Ticks: 0, Bound: 1},
@@ -685,7 +848,7 @@ func c17Run(c *fw.Ctx) {
 		sc := sc
 		drive(c, sc.Name, sc.Bound, func(x *explore.Exec, owned bool) {
 			d, obs, s, probs := googleExecute(x, sc)
-			probs = googleOracle(d, obs, s, probs, c17Flags{cognito: sc.Cognito})
+			probs = googleOracle(d, obs, s, probs, c17Flags{cognito: sc.Cognito, realAdmin: sc.RealAdmin})
 			var sb strings.Builder
 			for _, o := range obs {
 				fmt.Fprintf(&sb, "%d:%s:%v:%v:%v;", o.Thread, o.Q.User, o.Q.Groups, o.Answer, o.Err)
